@@ -23,8 +23,12 @@ func jsonRoundTrip(raw any, out *TV) (bool, string) {
 	if err := d.Decode(&back); err != nil {
 		return false, "serialised result does not decode: " + err.Error() + ": " + string(b)
 	}
-	if !strictEq(fromGo(back), out) {
-		return false, "result changes through encoding/json: " + out.show() + " became " + fromGo(back).show()
+	// encoding/json writes a float as its shortest round-trip text: compare under that reading of floats
+	shortestFloats = true
+	want := fromGo(raw)
+	shortestFloats = false
+	if !strictEq(fromGo(back), want) {
+		return false, "result changes through encoding/json: " + want.show() + " became " + fromGo(back).show()
 	}
 	return true, ""
 }
